@@ -65,7 +65,7 @@ CLAIMED = {
         note=BASE + 'The walks over ANTLR parse trees and the ANTLR front end are bounded only. Known finding C01_cardinality_like_list (lexer of the dependency). str.replace modelled for one-character patterns.'),
     'C02': dict(category='other', design_ref='DESIGN.md section 4 C02, section 9',
         text='Proved for all heaps: the model-side mutators every reader builds trees with -- add_relation (every child adopts the owner; the relation list '
-             'grows by exactly that relation), add_attribute, add_child, set_parent -- including their frames (field-granular modifies). Bounded: '
+             'grows by exactly that relation), add_attribute, add_child, set_parent -- including their frames (field-granular modifies); the FeatureIDE reader returns constraint trees in the library form for every rule element (contract shared with C09). Bounded: '
              'documents written by the library and by independent emitters for the six readers: tree well-formedness, constraint-tree form, get_features.',
         note=BASE + 'Reader walks are bounded only. Known finding C02_aggregate_features.'),
     'C04': dict(category='other', design_ref='DESIGN.md section 4 C04, section 9',
@@ -84,13 +84,21 @@ CLAIMED = {
              'enumerated attributes), relations compared as bags per parent.',
         note=BASE + 'Everything except purity is bounded. ANTLR AFM front end assumed.'),
     'C07': dict(category='other', design_ref='DESIGN.md section 4 C07, section 9',
-        text='Deductive part: writer purity (effect analysis). Bounded: 4 cycles over random FeatureIDE-fragment models with 0-3 constraints incl. single '
+        text='Deductive part: writer purity (effect analysis); reader side of the constraint round trip: _parse_rule returns, for every rule element, a tree with the truth value the format gives the element (contract shared with C09). Bounded: 4 cycles over random FeatureIDE-fragment models with 0-3 constraints incl. single '
              'literals and hostile names; text identical from the second write on (iff is read as two implications).',
-        note=BASE + 'Everything except purity is bounded. ElementTree / minidom assumed.'),
+        note=BASE + 'The writer walk (_get_ctc_info builds elements through ElementTree.SubElement) and the feature-tree walks are bounded only. ElementTree / minidom assumed; Element modelled as a value.'),
     'C08': dict(category='other', design_ref='DESIGN.md section 4 C08, section 9',
         text='Deductive part: writer purity (effect analysis). Bounded: 3 cycles with byte-identical text over random Glencoe-fragment models (solitary children, or '
              'one ALT/OR/MUTEX/[a,b] group with mandatory companions), constraints over all eight operators with distinct names, hostile names.',
         note=BASE + 'Everything except purity is bounded. json library assumed.'),
+    'C09': dict(category='other', design_ref='DESIGN.md section 4 C09, section 9',
+        text='Proved for every FeatureIDE rule element (any nesting, any number of operands; the document is an element tree value): '
+             '_parse_rule returns a tree in the library form whose truth value under every assignment is the one the format gives the element '
+             '(n-ary conj / disj keep all operands, eq is an equivalence), and an element the library cannot represent raises. Bounded: documents '
+             'from independent emitters for FeatureIDE, FaMa XML, AFM and Glencoe using each format\'s syntactic freedom, and the FaMa corpus '
+             'against its Betty statistics.',
+        note=BASE + 'xml.etree Element modelled as a value (tag, text or None, ordered children); attributes are not modelled, so the feature-tree '
+                    'walks (mandatory flags, cardinalities) are bounded only. Termination of _parse_rule not proved (finite tree assumed).'),
     'C10': dict(category='other', design_ref='DESIGN.md section 4 C10, section 9',
         text='Deductive part: purity of both writers; the CNF chain the SPLOT export relies on (simplify_formula / propagate_negation / to_cnf: equivalence and '
              'normal forms, proved in C18 on the dependency source). Bounded: both exports interpreted by independent interpreters of SXFM and of the '
@@ -146,8 +154,7 @@ def main():
         json.dump(man, fh, indent=1)
 
 
-NA = {'C09': 'no contract within the reach of the verifier decides a clause of this property yet: the four readers walk ElementTree / dict / ANTLR documents '
-            '(the bounded stand-in standin/props/c09.py with independent emitters and the Betty corpus exists and passes, but a property is not claimed on the stand-in alone)'}
+NA = {}
 
 if __name__ == '__main__':
     main()
